@@ -25,6 +25,7 @@ func main() {
 	out = bufio.NewWriterSize(os.Stdout, 1<<20)
 	defer out.Flush()
 	if os.Args[1] == "replay" {
+		defer c16Cleanup()
 		replay(os.Args[2])
 		return
 	}
